@@ -12,6 +12,7 @@ import RbModel.Lemmas.BufZipper
 import RbModel.Lemmas.GsubSingleSpec
 import RbModel.Lemmas.GsubAlternateSpec
 import RbModel.Lemmas.GsubMultiSpec
+import RbModel.Lemmas.GsubMultiDel
 
 namespace RbModel.Buf
 
@@ -451,5 +452,82 @@ example : (match applyString exMultiCtx exMultiLookup 4 with
     | .ok c' => (c'.buf.info.take c'.buf.len).map (fun x => (x.gid, x.cluster)) ==
                   [(11, 0), (2, 0), (11, 0), (2, 1), (11, 2), (2, 2), (11, 2), (5, 3)]
     | .error _ => false) = true := by decide
+
+/-- The source has the HarfBuzz guard in the "extend start" loop of `merge_clusters` (`delete_glyph` with an empty
+    out-buffer goes through it). -/
+theorem C06_gen_extend_start_guard : Gen.Buf.extendStartGuard = 1 := by decide
+
+/-- **C06, multiple substitution with empty sequences allowed (partial: clusters and glyph flags are left out).**
+    An empty sequence makes the crate delete the glyph (`delete_glyph`: HarfBuzz follows Uniscribe here) and merge its
+    cluster into a neighbour, rewriting cluster values and `glyph_flag` bits of OTHER glyphs; the specification removes the
+    glyph and touches nothing else, so the two strings differ in clusters (example below) and the full statement of
+    `C06_multiple_subst_refines_spec` is false there.  What holds for every sequence length: the pass succeeds, and glyph
+    ids and feature bits (the mask outside `glyph_flag::DEFINED`) are exactly those of the specification.
+    `hlmf`: the lookup mask is made of feature bits (the feature map never allocates the three glyph-flag bits). -/
+theorem C06_multiple_delete_partial (l : Lookup) (hall : l.subtables.all Subtable.isMultiple = true)
+    (c : Ctx) (fuel level : Nat)
+    (hlmf : c.lookupMask &&& (U32MAX - Flag.DEFINED) = c.lookupMask)
+    (hsu : c.buf.successful = true) (hlen : c.buf.len ≤ c.buf.info.length)
+    (hout : c.buf.out.length = c.buf.info.length) (hf : c.buf.len ≤ fuel)
+    (hgid : ∀ x ∈ c.buf.info.take c.buf.len, x.gid < 65536)
+    (hsync : ∀ x ∈ c.buf.info.take c.buf.len,
+      checkGlyphProperty c.font x l.props = !ignored c.font l.props (toG x))
+    (hbudget : (applyLookupFwd c.font level l c.lookupMask fuel ((c.buf.info.take c.buf.len).map toG) 0).length
+      ≤ c.buf.maxLen) :
+    ∃ c', applyString c l fuel = .ok c' ∧ c'.buf.successful = true ∧ c'.buf.len ≤ c'.buf.info.length ∧
+      (c'.buf.info.take c'.buf.len).map (fun x => (x.gid, featBits x.mask))
+        = (applyLookupFwd c.font level l c.lookupMask fuel ((c.buf.info.take c.buf.len).map toG) 0).map
+            (fun g => (g.gid, featBits g.mask)) := by
+  have hspec : (applyLookupFwd c.font level l c.lookupMask fuel ((c.buf.info.take c.buf.len).map toG) 0).map piG
+      = (c.buf.info.take c.buf.len).flatMap
+          (stepF c.font c.lookupMask l.props (fun x => multiSeq? l.subtables (x.gid % 65536))) := by
+    rw [applyLookupFwd_list c.font level l c.lookupMask (fun g => multiSeq? l.subtables g.gid) (fun _ => True)
+          (fun gs i g hg _ => firstSubtable_multiple c.font level l.props c.lookupMask gs i g hg l.subtables hall)
+          fuel _ 0 (fun _ _ _ _ => trivial) (by simp; omega) (Nat.zero_le _)]
+    simp only [List.take_zero, List.nil_append, List.drop_zero, List.flatMap_map, List.map_flatMap]
+    symm
+    apply flatMap_congr_mem
+    intro x hx
+    rw [toG_eq_projG]
+    apply stepF_eq_specStepL
+    · show multiSeq? l.subtables (x.gid % 65536) = multiSeq? l.subtables x.gid
+      rw [Nat.mod_eq_of_lt (hgid x hx)]
+    · exact hsync x hx
+  have hbudget' : ((c.buf.info.take c.buf.len).flatMap
+      (stepF c.font c.lookupMask l.props (fun x => multiSeq? l.subtables (x.gid % 65536)))).length ≤ c.buf.maxLen := by
+    rw [← hspec]; simpa using hbudget
+  obtain ⟨c', hrun, hsu', hle', hres⟩ :=
+    applyString_feat l (fun x => multiSeq? l.subtables (x.gid % 65536)) (multiple_not_reverse l hall) c false
+      (actsAsL_multiple l hall c.lookupMask) hlmf (fun x y h => by simp only [h])
+      C06_gen_buffer_variants.2 C06_gen_extend_start_guard (fun h => by cases h) fuel hsu hlen hout hf hbudget'
+  refine ⟨c', hrun, hsu', hle', ?_⟩
+  exact hres.trans hspec.symm
+
+/-! non-vacuity, and the difference that makes this theorem partial.  First text: glyph 2 (cluster 1) is deleted between
+    glyph 1 (cluster 0, grows to 11 12) and glyph 3 (cluster 2); its cluster is larger than its predecessor's, nothing is
+    relabelled.  Second text: the deleted glyph comes FIRST and `delete_glyph` gives its cluster 0 to the next glyph
+    (`merge_clusters`), where the specification keeps cluster 1. -/
+def exDelLookup : Lookup := { props := 0, subtables := [.multiple [1, 2] [[11, 12], []]] }
+def exDelCtx : Ctx :=
+  { font := exFont, lookupMask := 8,
+    buf := { info := [⟨1,8,0,GP.BASE_GLYPH,0⟩, ⟨2,8,1,0,0⟩, ⟨3,8,2,0,0⟩], out := [{}, {}, {}], len := 3 } }
+def exDelCtx2 : Ctx :=
+  { font := exFont, lookupMask := 8,
+    buf := { info := [⟨2,8,0,0,0⟩, ⟨3,8,1,0,0⟩], out := [{}, {}], len := 2 } }
+
+example : exDelLookup.subtables.all Subtable.isMultiple = true := by decide
+example : exDelCtx.lookupMask &&& (U32MAX - Flag.DEFINED) = exDelCtx.lookupMask := by decide
+example : ∀ x ∈ exDelCtx.buf.info.take exDelCtx.buf.len,
+    checkGlyphProperty exDelCtx.font x exDelLookup.props = !ignored exDelCtx.font exDelLookup.props (toG x) := by decide
+example : (match applyString exDelCtx exDelLookup 3 with
+    | .ok c' => (c'.buf.info.take c'.buf.len).map (fun x => (x.gid, x.cluster)) == [(11, 0), (12, 0), (3, 2)]
+    | .error _ => false) = true := by decide
+/-- the crate's cluster merge: the glyph after a deleted first glyph takes over cluster 0 … -/
+example : (match applyString exDelCtx2 exDelLookup 2 with
+    | .ok c' => (c'.buf.info.take c'.buf.len).map (fun x => (x.gid, x.cluster)) == [(3, 0)]
+    | .error _ => false) = true := by decide
+/-- … which the specification does not describe (it keeps cluster 1) -/
+example : (applyLookupFwd exDelCtx2.font 0 exDelLookup 8 2 ((exDelCtx2.buf.info.take 2).map toG) 0).map
+    (fun g => (g.gid, g.cluster)) = [(3, 1)] := by decide
 
 end RbModel.Gsub
